@@ -316,6 +316,12 @@ func readDir(dir string) dirState {
 	st := dirState{}
 	es, _ := os.ReadDir(dir)
 	for _, e := range es {
+		if e.Type()&os.ModeSymlink != 0 {
+			// a symbolic link is recorded as such (it may dangle)
+			t, _ := os.Readlink(filepath.Join(dir, e.Name()))
+			st[e.Name()] = []byte("symlink:" + t)
+			continue
+		}
 		b, err := os.ReadFile(filepath.Join(dir, e.Name()))
 		if err == nil {
 			st[e.Name()] = b
